@@ -11,7 +11,7 @@ from pyvc.loops import LoopSpec, loop_table
 from pyvc.ctx import Undecided
 from pyvc.interp import Interp, PyExc, Frame, _Return
 from pyvc import source
-from pyvc.bytesmodel import ByteStr, to_bytestr, struct_pack, struct_unpack, struct_axioms, LE32, U32, TWO32, I_
+from pyvc.bytesmodel import ByteStr, to_bytestr, struct_pack, struct_unpack, struct_Struct, struct_axioms, LE32, U32, TWO32, I_
 
 TMOD = 'pysyncobj/tcp_connection.py'
 TC = lambda n: '_TcpConnection__' + n
@@ -217,7 +217,7 @@ def sock_getsockopt(I, selfv, args, kw):
 REG = {'TcpConnection.disconnect': disconnect_summary, 'Socket.send': sock_send, 'Socket.recv': sock_recv, 'Socket.getsockopt': sock_getsockopt,
        'Socket.close': lambda I, s, a, k: None, 'Poller.unsubscribe': lambda I, s, a, k: I.ctx.glist('unsub').append(a[0]),
        'Poller.subscribe': lambda I, s, a, k: None}
-EXT = {'struct.pack': struct_pack, 'struct.unpack': struct_unpack, 'zlib.compress': ext_compress, 'zlib.decompress': ext_decompress,
+EXT = {'struct.pack': struct_pack, 'struct.unpack': struct_unpack, 'struct.Struct': struct_Struct, 'zlib.compress': ext_compress, 'zlib.decompress': ext_decompress,
        'pickle.dumps': ext_dumps, 'pickle.loads': ext_loads,
        'monotonicTime': None, 'bytes': lambda I, a, k: Win(z3.K(I_, z3.IntVal(0)), 0, 0)}
 
@@ -345,7 +345,7 @@ def _mut_len_plus_one(fn):
     cnt = 0
     for n in ast.walk(fn):
         if isinstance(n, ast.Call) and isinstance(n.func, ast.Attribute) and n.func.attr == 'pack':
-            n.args[1] = ast.BinOp(left=n.args[1], op=ast.Add(), right=ast.Constant(value=1))
+            n.args[-1] = ast.BinOp(left=n.args[-1], op=ast.Add(), right=ast.Constant(value=1))
             cnt += 1
     return cnt
 
